@@ -646,7 +646,7 @@ def apply_contract(I, st, c, fi, argmap, node):
             elif rt == "Any":
                 res = Val("Any", st.fresh(RefS, "res"))
             else:
-                res = st.fresh_val(rt, "res_" + fi.name, assume_alloc=False)
+                res = st.fresh_val(rt, "res_" + fi.name, assume_alloc=False, finite=False)
             env["result"] = res
             for cl in c.ensures:
                 g = specs.eval_clause(I, st, cl, env, fi, allow_effects=True)
